@@ -58,10 +58,14 @@ MulLemma ==
 
 UnormLemma ==
     (kind = "lemma" /\ op = 5) =>
-       \A b \in 1..10 : \A n \in 0..MaxOf(b) :
-          LET iv == IvFromUnorm(n, MaxOf(b)) IN
-          /\ iv[1] * MaxOf(b) <= n * ONE /\ n * ONE <= iv[2] * MaxOf(b)
-          /\ iv[2] - iv[1] <= 1
+       /\ \A b \in 1..10 : \A n \in 0..MaxOf(b) :
+             LET iv == IvFromUnorm(n, MaxOf(b)) IN
+             /\ iv[1] * MaxOf(b) <= n * ONE /\ n * ONE <= iv[2] * MaxOf(b)
+             /\ iv[2] - iv[1] <= 1
+       \* 16-bit colours (solid fills): q = 16 v + k with k 65535 <= 16 v < (k + 1) 65535
+       /\ \A v \in {1, 2, 255, 256, 257, 32768, 65280, 65408, 65534} :
+             LET w16 == IvFromUnorm(v, 65535)  k == w16[1] - 16 * v IN
+             /\ k * 65535 <= 16 * v /\ 16 * v < (k + 1) * 65535 /\ w16[2] - w16[1] <= 1
 
 DivLemma ==
     (kind = "lemma" /\ op = 6) =>
